@@ -5,21 +5,34 @@ import "math/rand"
 // genLongCull: a long in-order run (600..1100 packets, so the arrival buffer
 // grows to capacity 1024) with a few losses, reported by a build; then a packet
 // whose arrival time makes the 500 ms cull sweep most of the history but leave
-// 129..900 entries (a size that is above minCapacity and in general not a power
-// of two, so RemoveOldPackets' adjustToSize shrinks the ring); then late
-// arrivals of numbers lost INSIDE the retained range (and sometimes a
-// duplicate of a retained number), so that range is reported again by the next
-// build from the shrunk ring.  A ring shrunk below the remaining size aliases
-// sn and sn+capacity: arrival times get overwritten and holes read as received.
+// `keep` entries; then late arrivals of numbers lost INSIDE the retained range
+// (and sometimes a duplicate of a retained number), so that range is reported
+// again by the next build.
+//
+// 7 of 8 cases take keep in 140..255: above minCapacity, below capacity/4, so
+// RemoveOldPackets' adjustToSize really shrinks the ring (1024 -> 256) while
+// more than 128 entries remain.  A ring shrunk below the remaining size aliases
+// sn and sn+capacity during reallocate: the first keep-128 retained entries
+// get the arrival times of the entries 128 later and holes read as received.
+// One number is therefore always lost inside those first keep-128 retained
+// numbers and arrives late, so the re-report starts inside the zone an
+// under-sized ring would have damaged.  The remaining cases leave 256..900
+// entries (no shrink, or a shrink to 512).
 func genLongCull(r *rand.Rand) ([]op, []string) {
 	n := 600 + r.Intn(500)
 	base := int64(r.Intn(65536))
 	if r.Intn(3) == 0 {
 		base = seqStarts[r.Intn(len(seqStarts))]
 	}
-	keep := 129 + r.Intn(min(771, n-150)) // entries the cull leaves
-	cut := n - keep                       // index of the first retained number
+	keep := 140 + r.Intn(116) // entries the cull leaves
+	if r.Intn(8) == 0 {
+		keep = 256 + r.Intn(min(645, n-280))
+	}
+	cut := n - keep // index of the first retained number
 	lost := map[int]bool{}
+	if keep < 256 {
+		lost[cut+2+r.Intn(keep-128-4)] = true
+	}
 	for k := 0; k < 2+r.Intn(3); k++ { // inside the retained range
 		lost[cut+3+r.Intn(keep-6)] = true
 	}
